@@ -511,7 +511,7 @@ func runC18(idx int, rng *rand.Rand, kind string, cr *caseResult) {
 		if m.rc.unstable {
 			continue
 		}
-		for rep := 0; rep < 40 && !m.rc.unstable; rep++ {
+		for rep := 0; rep < 600 && !m.rc.unstable; rep++ {
 			if text, p := safeRun(m.rc); p == "" && text != m.rc.expect {
 				m.rc.unstable = true
 				cr.Checks["unstable_answers_not_compared"]++
@@ -519,7 +519,7 @@ func runC18(idx int, rng *rand.Rand, kind string, cr *caseResult) {
 		}
 		if !m.rc.unstable {
 			c.violate("C18:concurrent", "read-only call "+m.rc.label+" returned a different answer while other readers were active",
-				fmt.Sprintf("sequential answer (reproduced 40 times): %.600s\nconcurrent answer: %.600s", m.rc.expect, m.text))
+				fmt.Sprintf("sequential answer (reproduced 600 times): %.600s\nconcurrent answer: %.600s", m.rc.expect, m.text))
 		}
 	}
 	cr.Checks["concurrent_calls"] += int(cmpCount)
